@@ -24,14 +24,24 @@ def _jobs(n_seeds, base=0):
         # crash + resume too
         if i % 2 == 0:
             a = common.job_args(spec, opts, cell)
-            a["fault"] = {"kind": "kill", "index": 20 + rng.randrange(200), "phase": rng.choice(["before", "after"])}
+            if i % 4 == 0:
+                a["fault"] = {"kind": "kill", "index": 20 + rng.randrange(200), "phase": rng.choice(["before", "after"])}
+            else:
+                # stage-relative kill (located by a probe run inside the job)
+                a["fault"] = {"kind": "kill", "stage": rng.choice(["collect", "construct", "merge"]), "frac": round(rng.random(), 3),
+                              "phase": rng.choice(["before", "after"])}
             jobs.append((cell["hashseed"], "scenarios:crash_resume", a))
         if i % 3 == 0:
             from simkit.checks import c20
             wls, steps, sched, fam = c20.gen_session(rng, True)
             jobs.append((0, "scenarios:cache_session", {"workloads": wls, "steps": steps, "sched": sched}))
+        if i % 6 == 1:
+            personas = [{"ref": rng.choice([0, 1]), "data_type": "nanopore", "genedb": rng.choice([0, 1]),
+                         "fastqs": [rng.randrange(4)], "db2gtf": rng.random() < 0.5} for _ in range(3)]
+            jobs.append((0, "scenarios:cache_functions", {"personas": personas, "sched": {"policy": "random", "seed": i},
+                                                          "same_mtime": ["gdb"] if i % 12 == 1 else None}))
         if i % 4 == 0:
-            mname = ["c08", "c15", "c18", "c12"][(i // 4) % 4]
+            mname = ["c08", "c15", "c18", "c12", "c05", "c09"][(i // 4) % 6]
             jobs.append((i % 3, "machines.%s:run" % mname, {"seed": 1000 + i, "max_examples": 25}))
     return jobs
 
@@ -52,6 +62,9 @@ def _run(jobs, lanes):
                 if "examples" in rr:      # machine job
                     out[k] = {"examples": rr.get("examples"), "distinct": rr.get("distinct"), "fail": bool(rr.get("fail")),
                               "known": sorted((rr.get("known") or {}).keys())}
+                elif "actors" in rr and "cache_malformed" in rr:      # cache function actors
+                    out[k] = {"trace": rr.get("trace_sha"), "events": rr.get("events"), "actors": rr.get("actors"),
+                              "codes": rr.get("exit_codes")}
                 elif "steps" in rr and isinstance(rr.get("steps"), list):     # cache session
                     out[k] = {"trace": rr.get("trace_sha"), "events": rr.get("events"),
                               "actors": [[(a.get("exit"), a.get("digests")) for a in st.get("actors", [])] for st in rr["steps"]]}
